@@ -152,6 +152,18 @@ def _unguard() -> None:
 
 
 def run_program(text: str, env0: T.Dict[str, T.Any]) -> T.Dict[str, T.Any]:
+    """Never lets resource exhaustion caused by a broken interpreter escape: that is an outcome, not a harness failure."""
+    try:
+        return _run_program(text, env0)
+    except (MemoryError, RecursionError) as e:
+        import gc
+        if _INTR is not None:
+            _INTR.variables = dict(_BASE)
+        gc.collect()
+        return {'st': 'internal:' + type(e).__name__, 'vars': [], 'acc': True, 'ast': []}
+
+
+def _run_program(text: str, env0: T.Dict[str, T.Any]) -> T.Dict[str, T.Any]:
     _make_interpreter()
     mp, pr, ml = _MODS
     from mesonbuild.interpreterbase import exceptions as iex
@@ -237,6 +249,15 @@ def _worker_gen(args: T.Tuple[int, int, int]) -> T.Dict[str, T.Any]:
 
 
 def run_tree(main: str, files: T.Dict[str, str], subs: T.Dict[str, str]) -> T.Dict[str, T.Any]:
+    try:
+        return _run_tree(main, files, subs)
+    except (MemoryError, RecursionError) as e:
+        import gc
+        gc.collect()
+        return {'st': 'internal:' + type(e).__name__, 'vars': [], 'acc': True, 'ast': []}
+
+
+def _run_tree(main: str, files: T.Dict[str, str], subs: T.Dict[str, str]) -> T.Dict[str, T.Any]:
     """A program spread over sub-directories and subprojects: written to disk and run by a fresh Interpreter."""
     mp, pr, ml = ld.load_modules()
     from mesonbuild import environment, build, interpreter, msetup, cmdline
